@@ -27,7 +27,7 @@ def queue_check(drv, violation, pid, cfg, info, seed, tier, viol_so_far):
     failed, out = None, ''
     with drv.Lock():
         for f in cfg['queue_proofs']:
-            rc, out = drv.run(['timeout', '900', 'coqc', '-R', coq, 'Verif', os.path.join(coq, f)], cwd=coq)
+            rc, out = drv.coqc_cached(f)
             if rc != 0:
                 failed = f
                 vo = os.path.join(coq, f[:-2] + '.vo')
